@@ -144,12 +144,22 @@ Print Assumptions C19_refuted_before_fix.
    [scheck] transcribe the parse path and the check path separately; [smatch] / [sfails] = "some fuel gives this result"
    (well defined: SkipNProofs.sparse_mono, smatch_fun); [units_from] = the chain of units: the first element without skips, every
    further element preceded by exactly k consecutive never-failing skip matches ------------------------------------------------- *)
-From PT Require Import Model.SkipN Proofs.SkipNProofs.
+From PT Require Import Model.SkipN Proofs.SkipNProofs Proofs.SkipNEntry.
 
 (* parse and check agree, for every node and every skip count *)
 Theorem C19_skipn_check_is_parse : forall f s n pos, scheck f s n pos = pos_of (sparse f s n pos).
 Proof. exact check_is_parse. Qed.
 Print Assumptions C19_skipn_check_is_parse.
+
+(* the never-failing entry points (`NeverFailedTypedNode::parse_with` / `check_with`: Empty, RepeatMin<_, 0>, RepeatMinMax<_, 0, MAX>,
+   any skip count, any skip node) are the fallible ones -- same offset, same value -- and never fail; their check half is the offset
+   of their parse half.  Tie: harness/unitskip `nf` mode (these entry points on every MIN = 0 type with SKIP in 0..3). *)
+Theorem C19_skipn_never_failing_entry : forall f s n pos, skip_shape n = true ->
+  sparse_nf f s n pos = sparse f s n pos /\ scheck_nf f s n pos = scheck f s n pos /\
+  sparse_nf f s n pos <> SFailed /\ scheck_nf f s n pos <> SFailed /\
+  scheck_nf f s n pos = pos_of (sparse_nf f s n pos).
+Proof. exact nf_entry_points. Qed.
+Print Assumptions C19_skipn_never_failing_entry.
 
 Theorem C19_skipn_cursor : forall f s n pos p v,
   pos <= length s -> sparse f s n pos = SOk (p, v) -> pos <= p <= length s.
